@@ -69,11 +69,12 @@ def assignSlots (ch : Chain) (invokeIndex : Nat) : SlotOut :=
       let (st, zs, skipped) := acc
       let fm := ch.get i
       if !fm.inc then acc else
-      let (dm, cnt) := addToVmap st.reg st.dmap st.count fm.downRmap fm.c.out
+      -- (outputs are stored under their own types: downRmap only says under which type an input is found)
+      let (dm, cnt) := addToVmap st.reg st.dmap st.count [] fm.c.out
       let st := { st with dmap := dm, count := cnt }
       let skipped' :=
         if fm.c.group == .staticGroup then
-          skipped ++ (fm.c.out.map (remapT fm.downRmap)).filter fun t => (st.dmap.lookup t).isSome
+          skipped ++ fm.c.out.filter fun t => (st.dmap.lookup t).isSome
         else skipped
       (st, (i, skipped) :: zs, skipped')) (st0, [], [])
   -- run set, backwards (all funcs, included or not)
